@@ -24,6 +24,13 @@ CHECKS["C06"] = dict(technique="property-based testing against reference [k]P wi
                      note="Trusted: Python integers, reference group law. Eigenvalue methods only get subgroup bases; PowersOfX digits in the documented range.",
                      ref="DESIGN.md section 4, C06")
 
+CHECKS["C03"] = dict(technique="differential property-based testing: every back end executable on the host (x86-64 BMI2 and baseline asm by symbol, dispatched members with either routine set, portable 64/32-bit words) against each other and a Python integer oracle; ARM sources under instruction interpreters",
+                     note="Trusted: Python integers; for the ARM sources our interpreters of the ~20 mnemonics used (no ARM hardware/qemu in the sandbox).",
+                     ref="DESIGN.md section 4, C03")
+CHECKS["C18"] = dict(technique="differential property-based testing over the (operation x aliasing pattern) matrix generated from shim/ops.def, the irregular C++ signatures and the C API; aliased call vs distinct-output call",
+                     note="Trusted: the distinct-output call as specification (tied to the reference by C02-C07). __restrict operands are never aliased.",
+                     ref="DESIGN.md section 4, C18")
+
 PENDING = {}
 
 
